@@ -172,24 +172,34 @@ def fmtOf (v : Cls) : Res Unit := do
   let s ← toLiquidString v
   if s == str_repr then pure () else pyPercentFormat s
 
+/-- the plural text of `ngettext` / `npgettext`: stringified, and %-formatted when the count selects it -/
+def pluralStep (a : Option Cls) : Res Unit :=
+  match a with
+  | none => pure ()
+  | some c => do let _ ← toLiquidString c; Res.alt (pure ()) (fmtOf c)
+
 /-- babel: `format_currency` / `format_decimal` of `_parse_decimal(left)` -/
 def babelDecimal : Cls → Res Unit
   | int_huge | int_giant | str_hugeint | str_exp => raise .decimal_InvalidOperation
   | _ => pure ()
 
-/-- babel `datetime`: `_parse_datetime(left)` then `format_datetime` -/
+/-- babel `datetime`: `_parse_datetime(left)` (a number, or `none` for a parsed date) then `format_datetime` -/
 def babelDatetime (l : Cls) : Res Unit :=
-  let fmtNum : Cls → Res Unit := fun n =>
+  let fmtNum : Option Cls → Res Unit := fun n =>
     match n with
-    | float_nan => raise .ValueError
-    | float_inf | float_ninf => raise .OverflowError
-    | _ => pyFromTimestamp n
-  if l.isStr then
-    -- `_parse_number`: int(val), else float(val); a ValueError falls through to dateutil
-    (tryCatch ((tryCatch (pyInt l) catch_extra_filters_babel__parse_number_0 (fun _ => some (pyFloat l))).bind fmtNum)
-      catch_extra_filters_babel__parse_datetime_0
-      (fun _ => some (tryCatch (pyDateParse l) catch_extra_filters_babel__parse_datetime_1 noOverride)))
-  else if l.isNum then fmtNum l
+    | some float_nan => raise .ValueError
+    | some float_inf | some float_ninf => raise .OverflowError
+    | some n => pyFromTimestamp n
+    | none => pure ()
+  if l.isStr then do
+    -- `_parse_number`: int(val), else float(val); a ValueError from both falls through to dateutil
+    let n ← tryCatch ((tryCatch (pyInt l) catch_extra_filters_babel__parse_number_0 (fun _ => some (pyFloat l))).bind
+                (fun c => pure (some c)))
+              catch_extra_filters_babel__parse_datetime_0
+              (fun _ => some ((tryCatch (pyDateParse l) catch_extra_filters_babel__parse_datetime_1 noOverride).bind
+                (fun _ => pure none)))
+    fmtNum n
+  else if l.isNum then fmtNum (some l)
   else raise .LiquidTypeError
 
 def steps (f : FilterName) (l : Cls) : Steps :=
@@ -286,18 +296,19 @@ def steps (f : FilterName) (l : Cls) : Steps :=
           forItems l (fun e => tryCatch (pyGetitem e k) catch_builtin_filters_array_uniq_0 (fun i =>
             match i with
             | 0 => some (pure ())
-            | _ => some (do let _ ← pyStr k; raise .FilterArgumentError))) }     -- the message formats `key`
+            | _ => some (do let _ ← pyStr k; strItems l; raise .FilterArgumentError))) }   -- the message formats `key` and the item
   | .compact_ => { s1 := fun a => match a with
       | none => pure ()
       | some k => if k == none_ then pure () else
-          tryCatch (forItems l (fun e => pyGetitem e k)) catch_builtin_filters_array_compact_0 noOverride }
-  | .sum_ => {
-      s1 := fun a => match a with
-        | none => pure ()
-        | some k => if k == none_ || k == undefined then pure () else forItems l (fun e => getitemH e k),
-      sEnd := do
+          tryCatch (forItems l (fun e => pyGetitem e k)) catch_builtin_filters_array_compact_0
+            (fun _ => some (do let _ ← pyStr k; raise .FilterArgumentError)) }            -- the message formats `key`
+  | .sum_ => { s1 := fun a =>
+      let unkeyed : Res Unit := do
         if l.isStr then decimalArg l (some ()) else pure ()
-        pySumDecimals l }
+        pySumDecimals l
+      match a with
+      | none => unkeyed
+      | some k => if k == none_ || k == undefined then unkeyed else forItems l (fun e => getitemH e k) }
   -- misc
   | .date_ => {
       -- `functools.lru_cache` hashes both arguments first
@@ -334,29 +345,31 @@ def steps (f : FilterName) (l : Cls) : Steps :=
   | .index_ => { s1 := fun a => match a with
       | none => pure ()
       | some _ => if l == undefined then raise .AttributeError else pure () }
-  | .sort_numeric_ => { s1 := fun a => do
-      (match a with | none => pure () | some k => if k.pyFalsy then pure () else (pyStr k).unit)
-      strItems l
-      if l == str_hugeint then raise .LiquidValueError else pure () }
+  | .sort_numeric_ => { s1 := fun a =>
+      -- `_ints(item)`: ints are taken as they are, anything else through `to_int` of its digit runs
+      let unkeyed : Res Unit := if l == str_hugeint then raise .LiquidValueError else pure ()
+      match a with
+      | none => unkeyed
+      | some k => if k.pyFalsy then unkeyed else (pyStr k).unit }
   | .t_ => { s0 := (toLiquidString l).unit, s1 := optTLS, sEnd := fmtOf l }
   | .gettext_ => { s0 := (toLiquidString l).unit, sEnd := fmtOf l }
   | .pgettext_ => { s0 := (toLiquidString l).unit, s1 := optTLS, sEnd := fmtOf l }
+  -- the count picks the singular (left) or the plural text; either may be the one that is %-formatted
   | .ngettext_ => {
-      s0 := (toLiquidString l).unit, s1 := optTLS,
+      s0 := (toLiquidString l).unit, s1 := pluralStep,
       s2 := fun a => match a with | none => pure () | some c => (intArg c (some int_pos)).unit,
-      s3 := fun _ => pure (),
-      sEnd := fmtOf l }
+      sEnd := Res.alt (pure ()) (fmtOf l) }
   | .npgettext_ => {
-      s0 := (toLiquidString l).unit, s1 := optTLS, s2 := optTLS,
+      s0 := (toLiquidString l).unit, s1 := optTLS, s2 := pluralStep,
       s3 := fun a => match a with | none => pure () | some c => (intArg c (some int_pos)).unit,
-      sEnd := fmtOf l }
+      sEnd := Res.alt (pure ()) (fmtOf l) }
   | .currency_ | .money_ | .money_with_currency_ | .money_without_currency_ | .money_without_trailing_zeros_ | .decimal_ =>
       { s0 := babelDecimal l }
   | .datetime_ => { s0 := babelDatetime l }
   | .unit_ => { s1 := fun a => match a with
       | none => pure ()
       | some u =>
-        if u == str_empty || u == undefined then
+        if u == str_empty || u == str_key then
           (match l with
            | int_huge | int_giant | str_hugeint | str_exp => raise .decimal_InvalidOperation
            | float_inf | float_ninf | str_inf => raise .OverflowError
